@@ -5,6 +5,7 @@ import (
 	"encoding/json"
 	"flag"
 	"fmt"
+	"math"
 	"math/rand"
 	"os"
 	"sort"
@@ -73,6 +74,21 @@ func (d *driver) logSpine(o model.Op, panicked bool) {
 	b, _ := json.Marshal(map[string]any{"t": "op", "op": o.Op, "r": o.R, "i": o.I, "k": k, "p": panicked, "sp": changed})
 	d.sw.Write(b)
 	d.sw.WriteByte('\n')
+}
+
+// driverTable: concretisation of a recorded program (gen 0: tree-form safe keys, 1: generated keys of big objects,
+// 2: look-alike strings). The extreme float tokens of the driver's value range stand for the infinities.
+func driverTable(gen int, seed int64, nkeys int) *conc.Table {
+	var t *conc.Table
+	switch gen {
+	case 1:
+		t = conc.NewGen(nkeys)
+	case 2:
+		t = conc.New("long", seed, nkeys)
+	default:
+		t = conc.NewTF(seed, nkeys)
+	}
+	return t.WithFloat(-4, math.Inf(-1)).WithFloat(4, math.Inf(1))
 }
 
 func (d *driver) bindNew(x any) int {
@@ -820,16 +836,14 @@ func cmdDrive(args []string) int {
 	var sizes []int
 	run := func(p int, big bool, nsteps int) {
 		rng := rand.New(rand.NewSource(*seed*1000003 + int64(p)))
-		t := conc.NewTF(*seed+int64(p), *nkeys)
 		gen := 0
 		if *bigObj {
-			t = conc.NewGen(*nkeys)
 			gen = 1
 		} else if p%3 == 2 {
 			// every third program runs on look-alike strings (long common prefixes, case pairs, ...)
-			t = conc.New("long", *seed+int64(p), *nkeys)
 			gen = 2
 		}
+		t := driverTable(gen, *seed+int64(p), *nkeys)
 		d := &driver{rng: rng, real: heapx.New(t, nil, *nkeys, *derived), nkeys: *nkeys, next: 1, big: big, bigObj: *bigObj, maxList: 40, w: w, sw: sw, spine: map[int][3]int{}, arrIDs: map[uintptr]int{}}
 		if big {
 			d.maxList = 700
@@ -1054,12 +1068,7 @@ func cmdRedrive(args []string) int {
 			if rec.NKeys == 0 {
 				rec.NKeys = 4
 			}
-			tbl := conc.NewTF(rec.CSeed, rec.NKeys)
-			if rec.Gen == 1 {
-				tbl = conc.NewGen(rec.NKeys)
-			} else if rec.Gen == 2 {
-				tbl = conc.New("long", rec.CSeed, rec.NKeys)
-			}
+			tbl := driverTable(rec.Gen, rec.CSeed, rec.NKeys)
 			d = &driver{rng: rand.New(rand.NewSource(1)), real: heapx.New(tbl, nil, rec.NKeys, rec.Derived), nkeys: rec.NKeys, next: 1, maxList: 1 << 30, w: w}
 			fmt.Fprintf(w, "{\"t\":\"reset\",\"nkeys\":%d,\"derived\":%d,\"cseed\":%d,\"gen\":%d}\n", rec.NKeys, rec.Derived, rec.CSeed, rec.Gen)
 			continue
